@@ -2,14 +2,22 @@
 from vf.props import rt_props
 
 KEYS = ["vf.contracts.laws:class_attribute_roundtrip", "doctrans.emitter_utils:to_docstring", "doctrans.docstring_parsers:_infer_default", "doctrans.parse:class_", "doctrans.docstring_parsers:_set_name_and_type", "doctrans.ast_utils:param2ast", "doctrans.ast_utils:set_value", "doctrans.defaults_utils:needs_quoting", "doctrans.defaults_utils:set_default_doc",
-        "doctrans.pure_utils:quote", "doctrans.pure_utils:unquote"]
+        "doctrans.pure_utils:quote", "doctrans.pure_utils:unquote", "doctrans.pure_utils:code_quoted"]
 
 
 def nq_scalars():
     """needs_quoting on the scalar type names (finite; by evaluation of the real function): a premise of param2ast's contract"""
     from doctrans.defaults_utils import needs_quoting
 
-    return [("NQ-scalar[%s]" % t, needs_quoting(t) is False, "needs_quoting(%r) is False" % t, needs_quoting(t)) for t in ("int", "float", "bool", "complex")]
+    items = [("NQ-scalar[%s]" % t, needs_quoting(t) is False, "needs_quoting(%r) is False" % t, needs_quoting(t)) for t in ("int", "float", "bool", "complex")]
+    # the part of needs_quoting behind the parser call (an ast walk over the parsed type) is outside the symbolic contract: it is decided by evaluation on
+    # the type shapes of the properties' domain - a type needs quoting iff it mentions str (by name, or as a string constant inside Literal[...])
+    for t, want in (("Union[int, str]", True), ("Union[str, bool]", True), ("List[str]", True), ("Optional[Union[float, str]]", True), ("Tuple[str, int]", True),
+                    ("Literal['a', 'b']", True), ("Optional[List[str]]", True), ("List[int]", False), ("Optional[int]", False), ("Union[int, float]", False),
+                    ("Tuple[int, float]", False), ("Literal[1, 2]", False), ("np.ndarray", False), ("Optional[bool]", False)):
+        got = needs_quoting(t)
+        items.append(("NQ-compound[%s]" % t, got is want, "needs_quoting(%r) is %s" % (t, want), got))
+    return items
 
 
 def check(run, record_expected=False):
